@@ -312,18 +312,18 @@ Qed.
 
 (* (1') the same for FromV1Image itself, default requirer, every view: for an existing path p of the view *)
 Theorem view_listing_eq_overlay_on_Dp_lemma cfg im st :
-  Dp cfg im = true -> prune_safe_p cfg im = true -> cfg_req cfg = None -> load cfg im = Some st ->
+  Dp cfg im = true -> no_links_p im = true -> prune_safe_p cfg im = true -> cfg_req cfg = None -> load cfg im = Some st ->
   forall i p, (i < length (init_slots im))%nat ->
     get_segs p (nth i (st_chains st) empty_trie) <> None ->
     impl_listing st i p = Some (spec_listing cfg im i p).
 Proof.
-  intros DP PS REQ LD i p Hi GP. unfold load in LD.
+  intros DP NOL PS REQ LD i p Hi GP. unfold load in LD.
   destruct (load_unpruned cfg im) as [st0|] eqn:LU; [|discriminate]. inversion LD; subst st; clear LD.
   destruct (view_is_fold_of_fills_lemma cfg im st0 LU) as [LEN _].
   destruct (Nat.eq_dec (S i) (length (init_slots im))) as [E|NE].
   - (* the last view *)
     assert (Ei : i = (length (init_slots im) - 1)%nat) by lia.
-    destruct (last_view_pruned cfg im st0 DP PS REQ LU ltac:(lia)) as [WF' PT]. cbv zeta in WF', PT. rewrite <- Ei in WF', PT.
+    destruct (last_view_pruned cfg im st0 DP NOL PS REQ LU ltac:(lia)) as [WF' PT]. cbv zeta in WF', PT. rewrite <- Ei in WF', PT.
     set (fin := nth i (st_chains st0) empty_trie) in *.
     set (fin' := nth i (st_chains (prune cfg st0)) empty_trie) in *.
     assert (SUB : forall q v, get_segs q fin' = Some v -> get_segs q fin = Some v /\ fn_wh v = false).
